@@ -96,9 +96,9 @@ func (n *Node) validatePath() error {
 	if strings.ContainsAny(n.name, invalidChars) {
 		return fmt.Errorf("invalid node name: %s", n.name)
 	}
-	// "." and ".." are not names of their own: path.Join resolves them away, so the joined path
-	// can be valid (a/.. is ".") although it is not the path of this node.
-	if n.name == "." || n.name == ".." {
+	// "", "." and ".." are not names of their own: path.Join drops or resolves them away, so the joined
+	// path can be valid (a/.. is ".", a//b is a/b) although it is not the path of this node.
+	if n.name == "" || n.name == "." || n.name == ".." {
 		return fmt.Errorf("invalid node name: %s", n.name)
 	}
 	if !fs.ValidPath(n.path()) {
